@@ -108,7 +108,7 @@ def new_length(n, force=None):
     return bytes([n])
 
 
-def encode_packet(tag, body, fmt='new', lenenc=None, chunks=None):
+def encode_packet(tag, body, fmt='new', lenenc=None, chunks=None, final_lenenc=None):
     """fmt 'new': lenenc in (None, 1, 2, 5); chunks = list of powers of two for partial body
     lengths (first >= 512), remainder goes in a final definite length.
     fmt 'old': lenenc in (None, 1, 2, 4, 0) with 0 = indeterminate."""
@@ -126,7 +126,7 @@ def encode_packet(tag, body, fmt='new', lenenc=None, chunks=None):
                 out.append(224 + e)
                 out += body[off:off + c]
                 off += c
-            out += new_length(len(body) - off)
+            out += new_length(len(body) - off, final_lenenc)
             out += body[off:]
             return bytes(out)
         out += new_length(len(body), lenenc)
